@@ -19,7 +19,7 @@ func init() {
 		ID:          "C03",
 		Level:       "other",
 		Run:         runC03,
-		Explanation: "Structural rules over the pipelined variants: R03.1 who-may-write architectural state (Context.Registers/Memory are stored to only by non-scoreboard Context methods and by the variants' line write-back routines; Context writers are called only from write units, branch resolution and Run); R03.2 every write-unit commit is behind the sequence filter `execution.SequenceID > limit` with limit != -1, and from the variant where register results are renamed the write-unit step of a flush cycle receives the limit; R03.3 the pipeline flush reaches the flush/clean of every bus and unit (and bumps the sequence epoch where one is used); R03.4 before the flush, Run drains execute units holding older work with the limit installed and the execute unit's pre-step drops exactly the younger ones; R03.5 branch resolution: taken -> rollback with the branch's own id, not taken -> commit; R03.6 decode stalls after an unconditional jump until the target is reported; R03.7 stores reach a cache only sequence-guarded or gated on unresolved conditional branches; R03.8 the branch/memory classification tables agree with the opcode implementations; R03.10 the flush path contains no explicit panic; R03.11 every read of the memory image by a line fetch is bounded (a wrong-path load may fetch any address); R03.12 the branch unit never misses a flush (assert -> jump/conditionalBranch sets the flush flag whenever the resolved pc differs from the fetched one); R03.13 every dispatch path of the control unit maintains the flags that hold ret and stores behind an unresolved conditional branch; R03.16 the wholesale commit at the resolution of a not-taken conditional branch is safe only if conditional branches resolve one at a time (held while an older one is unresolved) or the commit is bounded by the branch's sequence id; R03.15 a variant that writes results into the register file directly dispatches in order or holds every instruction while a conditional branch is unresolved; R03.14 the squash restores register state: Context.Rollback/RATRollback, the transactional writes and the tag-bounded rename-table lookups equal the reference model (spec/risc_state.go.txt). Does not decide that sequence ids order instructions correctly across loop iterations and epochs (a value question).",
+		Explanation: "Structural rules over the pipelined variants: R03.1 who-may-write architectural state (Context.Registers/Memory are stored to only by non-scoreboard Context methods and by the variants' line write-back routines; Context writers are called only from write units, branch resolution and Run); R03.2 every write-unit commit is behind the sequence filter `execution.SequenceID > limit` with limit != -1, and from the variant where register results are renamed the write-unit step of a flush cycle receives the limit; R03.3 the pipeline flush reaches the flush/clean of every bus and unit (and bumps the sequence epoch where one is used); R03.4 before the flush, Run drains execute units holding older work with the limit installed and the execute unit's pre-step drops exactly the younger ones; R03.5 branch resolution: taken -> rollback with the branch's own id, not taken -> commit; R03.6 decode stalls after an unconditional jump until the target is reported; R03.7 stores reach a cache only sequence-guarded or gated on unresolved conditional branches; R03.8 the branch/memory classification tables agree with the opcode implementations; R03.10 the flush path contains no explicit panic; R03.11 every read of the memory image by a line fetch is bounded (a wrong-path load may fetch any address); R03.12 the branch unit never misses a flush (assert -> jump/conditionalBranch sets the flush flag whenever the resolved pc differs from the fetched one); R03.13 every dispatch path of the control unit maintains the flags that hold ret and stores behind an unresolved conditional branch; R03.17 the one-line-per-access data path tests the sign of an address before it selects a line with a truncating remainder (a wrong-path load can carry a negative address); R03.16 the wholesale commit at the resolution of a not-taken conditional branch is safe only if conditional branches resolve one at a time (held while an older one is unresolved) or the commit is bounded by the branch's sequence id; R03.15 a variant that writes results into the register file directly dispatches in order or holds every instruction while a conditional branch is unresolved; R03.14 the squash restores register state: Context.Rollback/RATRollback, the transactional writes and the tag-bounded rename-table lookups equal the reference model (spec/risc_state.go.txt). Does not decide that sequence ids order instructions correctly across loop iterations and epochs (a value question).",
 		Assumptions: []string{"sequence ids increase in program order within an epoch (not decided)"},
 		Trusted:     []string{"go/types", "role resolution (evidence.anchors)", "E-TERM opcode terms for the derived classification"},
 	})
@@ -992,6 +992,8 @@ func runC03(r *Run) {
 	ruleDirectWritesInOrder(r, "R03.15")
 	r.floor("R03.16", 5)
 	ruleNestedSpeculation(r, "R03.16")
+	r.floor("R03.17", 3)
+	ruleNegativeAddresses(r, "R03.17")
 	// the squash restores the register state: rollback and the tag-bounded
 	// rename-table lookups equal the reference model
 	r.floor("R03.14", 6)
@@ -1411,4 +1413,65 @@ func enclosingDecl(p *packages.Package, pos token.Pos) *ast.FuncDecl {
 		}
 	}
 	return nil
+}
+
+// ruleNegativeAddresses (R03.17): a wrong-path load is issued before the branch
+// resolves and can carry ANY address, negative ones included. The coherent data
+// path selects the line with  a - a%C , Go's truncating remainder, which maps a
+// negative address to a line that does not contain it (-5 -> line 0); the byte is
+// then looked up in that line and the run panics. Necessary: the path tests the
+// sign of the address somewhere before it selects a line (reject, squash or use a
+// floor alignment).
+func ruleNegativeAddresses(r *Run, rule string) {
+	w := r.W
+	for _, v := range variants(w) {
+		if v.pkg == nil || !v.pipelined() || !usesLineLocks(w, v) {
+			continue
+		}
+		info := v.info
+		pe := newProvEngine(w, v.pkg)
+		aligns := 0
+		signTests := 0
+		var pos token.Pos
+		for _, f := range v.pkg.Syntax {
+			ast.Inspect(f, func(n ast.Node) bool {
+				switch x := n.(type) {
+				case *ast.FuncDecl:
+					if fn, ok := info.Defs[x.Name].(*types.Func); ok {
+						if _, ok := pe.alignmentFunc(fn); ok {
+							aligns++
+							if pos == 0 {
+								pos = x.Pos()
+							}
+						} else if _, ok := pe.alignParam(fn); ok {
+							aligns++
+							if pos == 0 {
+								pos = x.Pos()
+							}
+						}
+					}
+				case *ast.BinaryExpr:
+					// a sign test of an address-typed value
+					if x.Op == token.LSS || x.Op == token.GEQ || x.Op == token.GTR || x.Op == token.LEQ {
+						for _, pair := range [][2]ast.Expr{{x.X, x.Y}, {x.Y, x.X}} {
+							if c, ok := constInt64(info.Types[pair[1]]); ok && c == 0 {
+								tn := typeName(info.TypeOf(pair[0]))
+								if tn == "int32" || tn == "AlignedAddress" {
+									if _, isConst := constInt64(info.Types[pair[0]]); !isConst {
+										// counters are int; addresses int32/AlignedAddress
+										signTests++
+									}
+								}
+							}
+						}
+					}
+				}
+				return true
+			})
+		}
+		if aligns == 0 {
+			continue
+		}
+		r.check(signTests > 0, rule, v.rel+":negative-address", pos, "the data path selects lines with a truncating remainder (%d alignment functions); some site must test the sign of an address before a line is selected, because a wrong-path load can carry a negative address (sign tests found: %d)", aligns, signTests)
+	}
 }
